@@ -62,6 +62,18 @@ def ensure_streams(app: appboot.App):
                             seed=52, track_id=2, start_number=0, sample_durations_in="trun")
     mp4synth.register(app, "syn5", "Synthetic numbered from 0, power-of-two loop", {"syn5_v1": v, "syn5_a1": a},
                       timing_from="syn5_v1")
+    # syn6: both files start at decode time 8 s (first tfdt != 0, version-1 tfdt boxes)
+    v = mp4synth.make_track("video", 600, [1200, 1200, 1200, 1200, 1200], samples_per_segment=4,
+                            seed=61, track_id=1, first_decode_time=4800, tfdt_version=1)
+    a = mp4synth.make_track("audio", 44100, [88064, 88064, 89088, 88064, 87720], samples_per_segment=[86, 86, 87, 86, 86],
+                            seed=62, track_id=2, first_decode_time=352800, sample_durations_in="trun")
+    mp4synth.register(app, "syn6", "Synthetic starting at 8 s", {"syn6_v1": v, "syn6_a1": a}, timing_from="syn6_v1")
+    # syn7: NTSC-style video (timescale 30000, frames of 1001 ticks, 11 segments of 50 frames): the timing
+    # reference lasts 550550/30000 s = 18.351666… s, not a whole number of microseconds
+    v = mp4synth.make_track("video", 30000, [50050] * 11, samples_per_segment=5, seed=71, track_id=1)
+    a = mp4synth.make_track("audio", 48000, [80896] * 10 + [71680], samples_per_segment=[79] * 10 + [70],
+                            seed=72, track_id=2, sample_durations_in="trun")
+    mp4synth.register(app, "syn7", "Synthetic NTSC", {"syn7_v1": v, "syn7_a1": a}, timing_from="syn7_v1")
     _STREAMS_READY = True
 
 
